@@ -353,33 +353,72 @@ func guarded(p *core.Prog, r *core.Result, rule string, spec core.GuardSpec) int
 	return len(accs)
 }
 
-// holdsX is holds() that also looks through in-module boolean helper predicates: a fact "helper(args) == v" is
-// expanded into the facts that hold inside the helper when it returns v; `arg` maps the helper's parameters back to
-// the caller's argument values (identity for other values).
-func holdsX(p *core.Prog, at ssa.Instruction, val bool, pred func(c ssa.Value, arg func(ssa.Value) ssa.Value) bool) bool {
+// xfact is a must-fact at some point, possibly one that holds inside a boolean helper predicate whose result is
+// known at that point; Arg maps the helper's values (parameters, spill cells of parameters) back to the caller's.
+type xfact struct {
+	Cond ssa.Value
+	Val  bool
+	Arg  func(ssa.Value) ssa.Value
+}
+
+// xfacts lists the facts before `at`, looking through in-module boolean helper predicates (two levels): a fact
+// "helper(args) == v" is expanded into the facts that hold inside the helper when it returns v.
+func xfacts(p *core.Prog, at ssa.Instruction) []xfact { return xfactsOf(p, p.FactsAt(at)) }
+
+// xfactsOf expands an arbitrary fact set (e.g. the facts of a phi edge).
+func xfactsOf(p *core.Prog, fs core.FactSet) []xfact {
 	id := func(v ssa.Value) ssa.Value { return v }
-	for f := range p.FactsAt(at) {
-		if f.Val == val && pred(f.Cond, id) {
-			return true
+	var out []xfact
+	var expand func(cond ssa.Value, val bool, outer func(ssa.Value) ssa.Value, depth int)
+	expand = func(cond ssa.Value, val bool, outer func(ssa.Value) ssa.Value, depth int) {
+		out = append(out, xfact{cond, val, outer})
+		call, ok := cond.(*ssa.Call)
+		if !ok || depth >= 2 {
+			return
 		}
-		call, ok := f.Cond.(*ssa.Call)
-		if !ok {
-			continue
-		}
-		cf, subst := p.CalleeFacts(call, f.Val)
+		cf, subst := p.CalleeFacts(call, val)
 		if cf == nil {
-			continue
+			return
 		}
 		arg := func(v ssa.Value) ssa.Value {
 			if a, ok := subst[v]; ok {
-				return a
+				return outer(a)
+			}
+			// the spill cell of a parameter stands for the parameter
+			if al, ok := v.(*ssa.Alloc); ok {
+				var prm ssa.Value
+				n := 0
+				for _, ref := range *al.Referrers() {
+					if st, ok := ref.(*ssa.Store); ok && st.Addr == ssa.Value(al) {
+						n++
+						prm = st.Val
+					}
+				}
+				if n == 1 {
+					if a, ok := subst[prm]; ok {
+						return outer(a)
+					}
+				}
 			}
 			return v
 		}
 		for g := range cf {
-			if g.Val == val && pred(g.Cond, arg) {
-				return true
-			}
+			expand(g.Cond, g.Val, arg, depth+1)
+		}
+	}
+	for f := range fs {
+		expand(f.Cond, f.Val, id, 0)
+	}
+	return out
+}
+
+// holdsX is holds() that also looks through in-module boolean helper predicates: a fact "helper(args) == v" is
+// expanded into the facts that hold inside the helper when it returns v; `arg` maps the helper's parameters back to
+// the caller's argument values (identity for other values).
+func holdsX(p *core.Prog, at ssa.Instruction, val bool, pred func(c ssa.Value, arg func(ssa.Value) ssa.Value) bool) bool {
+	for _, f := range xfacts(p, at) {
+		if f.Val == val && pred(f.Cond, f.Arg) {
+			return true
 		}
 	}
 	return false
